@@ -182,3 +182,44 @@ def get_chunk_size():
         return None
 
     return fn.__defaults__[0]
+
+
+def identifier_names():
+    """Names used inside the library's reader / object-model code (argument
+    and local variable names, attribute names): option keys spelled like
+    these are the ones most likely to collide with something internal."""
+    import types
+    ns = load()
+    out = set()
+
+    def walk(code):
+        out.update(code.co_varnames)
+        out.update(code.co_names)
+
+        for c in code.co_consts:
+            if isinstance(c, types.CodeType):
+                walk(c)
+
+    import pydiffx.reader
+    import pydiffx.dom.reader
+    import pydiffx.dom.objects
+    import pydiffx.dom.properties
+
+    for mod in (pydiffx.reader, pydiffx.dom.reader, pydiffx.dom.objects,
+                pydiffx.dom.properties):
+        for obj in vars(mod).values():
+            if isinstance(obj, type):
+                for v in vars(obj).values():
+                    f = getattr(v, '__func__', v)
+
+                    if isinstance(f, types.FunctionType):
+                        walk(f.__code__)
+
+                    if isinstance(v, property) and v.fget is not None:
+                        walk(v.fget.__code__)
+            elif isinstance(obj, types.FunctionType):
+                walk(obj.__code__)
+
+    import re
+    return sorted(n for n in out
+                  if re.fullmatch(r'[A-Za-z][A-Za-z0-9_-]*', n))
